@@ -4,6 +4,7 @@
 
 use crate::ir::*;
 use std::collections::HashSet;
+use std::sync::Arc;
 
 #[derive(Debug, Clone, Copy, PartialEq, Eq)]
 pub enum Tier {
@@ -23,7 +24,8 @@ pub struct Family {
 pub struct State {
     pub family: &'static str,
     pub depth: usize,
-    pub desc: Desc,
+    /// shared with the deduplication set and the frontier of the search (one copy in memory)
+    pub desc: Arc<Desc>,
 }
 
 #[derive(Debug, Clone, Default)]
@@ -35,11 +37,12 @@ pub struct Explored {
 
 pub fn bfs(f: &Family, tier: Tier) -> (Vec<State>, usize) {
     let maxd = (f.depth)(tier);
-    let mut seen: HashSet<Desc> = HashSet::new();
+    let mut seen: HashSet<Arc<Desc>> = HashSet::new();
     let mut out: Vec<State> = vec![];
-    let mut frontier: Vec<Desc> = vec![];
+    let mut frontier: Vec<Arc<Desc>> = vec![];
     let mut transitions = 0usize;
     for s in (f.init)(tier) {
+        let s = Arc::new(s);
         if seen.insert(s.clone()) {
             out.push(State { family: f.name, depth: 0, desc: s.clone() });
             frontier.push(s);
@@ -50,7 +53,9 @@ pub fn bfs(f: &Family, tier: Tier) -> (Vec<State>, usize) {
         for s in &frontier {
             for n in (f.succ)(s, depth, tier) {
                 transitions += 1;
-                if seen.insert(n.clone()) {
+                if !seen.contains(&n) {
+                    let n = Arc::new(n);
+                    seen.insert(n.clone());
                     out.push(State { family: f.name, depth: depth + 1, desc: n.clone() });
                     next.push(n);
                 }
@@ -59,6 +64,42 @@ pub fn bfs(f: &Family, tier: Tier) -> (Vec<State>, usize) {
         frontier = next;
     }
     (out, transitions)
+}
+
+/// Level sizes of one family (diagnostic): stops when a level exceeds `cap` states.
+pub fn level_sizes(f: &Family, tier: Tier, cap: usize) -> Vec<usize> {
+    let maxd = (f.depth)(tier);
+    let mut seen: HashSet<Arc<Desc>> = HashSet::new();
+    let mut frontier: Vec<Arc<Desc>> = vec![];
+    let mut sizes = vec![];
+    for s in (f.init)(tier) {
+        let s = Arc::new(s);
+        if seen.insert(s.clone()) {
+            frontier.push(s);
+        }
+    }
+    sizes.push(frontier.len());
+    for depth in 0..maxd {
+        let mut next = vec![];
+        for s in &frontier {
+            for n in (f.succ)(s, depth, tier) {
+                if !seen.contains(&n) {
+                    let n = Arc::new(n);
+                    seen.insert(n.clone());
+                    next.push(n);
+                }
+            }
+            if next.len() > cap {
+                break;
+            }
+        }
+        sizes.push(next.len());
+        if next.len() > cap {
+            break;
+        }
+        frontier = next;
+    }
+    sizes
 }
 
 pub fn explore(families: &[&Family], tier: Tier) -> Explored {
@@ -169,7 +210,13 @@ fn bf_succ(s: &Desc, _depth: usize, tier: Tier) -> Vec<Desc> {
     out
 }
 
-pub static BF: Family = Family { name: "BF", init: bf_init, succ: bf_succ, depth: |t| if t == Tier::Quick { 3 } else { 4 } };
+// Depth bounds. Thorough uses the larger alphabets everywhere and deeper searches where a
+// fourth / fifth letter completes a mechanism (arrays with size, padding and a neighbour;
+// nested structs; inheritance chains); measured level sizes put the whole thorough graph at
+// about 3.3e6 states (10 GB resident with shared state storage). Deeper bounds for BF (2.8e6
+// states at depth 4), PL (2.0e6 at 5), IN (> 3e6 at 3) and MIX (1.4e6 at 4) do not fit next to
+// the other engines' memory on this machine and are not part of the tier.
+pub static BF: Family = Family { name: "BF", init: bf_init, succ: bf_succ, depth: |t| if t == Tier::Quick { 3 } else { 3 } };
 
 // ------------------------------------------------------------------ AR: arrays
 
@@ -291,7 +338,7 @@ fn pl_succ(s: &Desc, _depth: usize, tier: Tier) -> Vec<Desc> {
     out
 }
 
-pub static PL: Family = Family { name: "PL", init: pl_init, succ: pl_succ, depth: |t| if t == Tier::Quick { 4 } else { 5 } };
+pub static PL: Family = Family { name: "PL", init: pl_init, succ: pl_succ, depth: |t| if t == Tier::Quick { 4 } else { 4 } };
 // (quick: the size-field width alphabet is {3, 8, 16}; a child is added in one step with its body)
 
 // ------------------------------------------------------------------ OP: optional fields
@@ -612,7 +659,7 @@ fn in_succ(s: &Desc, _depth: usize, tier: Tier) -> Vec<Desc> {
     out
 }
 
-pub static IN: Family = Family { name: "IN", init: in_init, succ: in_succ, depth: |t| if t == Tier::Quick { 2 } else { 3 } };
+pub static IN: Family = Family { name: "IN", init: in_init, succ: in_succ, depth: |t| if t == Tier::Quick { 2 } else { 2 } };
 
 // ------------------------------------------------------------------ INC: inheritance chains
 
@@ -924,7 +971,7 @@ fn mix_succ(s: &Desc, _depth: usize, tier: Tier) -> Vec<Desc> {
     out
 }
 
-pub static MIX: Family = Family { name: "MIX", init: mix_init, succ: mix_succ, depth: |t| if t == Tier::Quick { 3 } else { 4 } };
+pub static MIX: Family = Family { name: "MIX", init: mix_init, succ: mix_succ, depth: |t| if t == Tier::Quick { 3 } else { 3 } };
 
 // ------------------------------------------------------------------ DC: declaration-level rules
 
